@@ -356,21 +356,39 @@ inline Inradius inradius_bounds(const Paths64& P, int G = 16) {
 // ------------------------------------------------------------------ result analysis: nesting parity and orientation
 // For every path of a result: depth = number of other result paths strictly containing it (decided at a vertex that
 // is not on the other path's boundary; result paths of a union never cross each other), sign of the exact area.
-struct PathNest { int depth = 0; int sign = 0; bool undecided = false; };
+struct PathNest { int depth = 0; int sign = 0; bool undecided = false; bool sliver = false; };
+// A path is a "sliver" when |area| <= 2.5 * perimeter: moving its boundary by the 2 units the property allows can create,
+// remove or invert such a path (the clean-up union rounds intersection points to integers, which does invert paths
+// thinner than about a unit), so its orientation carries no information outside the tolerance band.
+inline bool is_sliver(const Path64& p) {
+  ld per = 0; size_t n = p.size();
+  for (size_t i = 0; i < n; ++i) per += sqrtl(to_ld(dist2(p[i], p[(i + 1) % n])));
+  i128 a2 = area2(p); if (a2 < 0) a2 = -a2;
+  return 0.5L * to_ld(a2) <= 2.5L * per;
+}
+// Containment of path i in path j is accepted only when ALL vertices of i that are not on j's boundary agree. The
+// clean-up union works to within its own tolerance: neighbouring result paths may overlap by about a unit (all inside
+// the tolerance band of the property), then some vertices of the inner path lie outside the outer one; such a pair is
+// "undecided" and the path is not judged.
 inline std::vector<PathNest> nesting_of(const Paths64& R) {
   std::vector<PathNest> out(R.size());
   for (size_t i = 0; i < R.size(); ++i) {
     out[i].sign = sgn(area2(R[i]));
+    out[i].sliver = is_sliver(R[i]);
+    if (out[i].sliver) continue;
     for (size_t j = 0; j < R.size(); ++j) {
       if (i == j || R[j].size() < 3) continue;
-      bool decided = false;
+      int in = 0, outn = 0;
+      Paths64 pj(1, R[j]);
       for (const Point64& v : R[i]) {
-        bool on = false; int w = winding1(R[j], v, &on);
+        bool on = false; int w = winding(pj, v, &on);
         if (on) continue;
-        if (w != 0) ++out[i].depth;
-        decided = true; break;
+        if (w != 0) ++in; else ++outn;
+        if (in && outn) break;
       }
-      if (!decided) out[i].undecided = true;
+      if (in && outn) out[i].undecided = true;
+      else if (in) ++out[i].depth;
+      else if (!outn) out[i].undecided = true;
     }
   }
   return out;
